@@ -120,6 +120,16 @@ func (r *wrec) see(s godi.Scope, ev string) {
 	r.events = append(r.events, ev)
 }
 
+// seeCtx: the request as a configured middleware is given it already carries the request's scope - "the scope seen by
+// configured middlewares" is the same whether a middleware uses its argument or the request context (helpers that take the
+// request or its context do the latter)
+func (r *wrec) seeCtx(s godi.Scope, ctx context.Context) {
+	got, err := godi.FromContext(ctx)
+	if err != nil || got != s {
+		r.add("WForeignScope")
+	}
+}
+
 // probe: a scoped disposable resolved by the first callback that sees the scope; its Close marks "scope closed"
 type wprobe struct {
 	rec  *wrec
@@ -436,6 +446,7 @@ func runRequestCtx(integ int, p godi.Provider, nmw int, exit, failAt int, rec *w
 				i := i
 				opts = append(opts, godihttp.WithMiddleware(func(s godi.Scope, r *http.Request) error {
 					rec.see(s, fmt.Sprintf("WMw %d", i))
+					rec.seeCtx(s, r.Context())
 					touch(s)
 					return mwFail(i)
 				}))
@@ -460,6 +471,7 @@ func runRequestCtx(integ int, p godi.Provider, nmw int, exit, failAt int, rec *w
 				i := i
 				opts = append(opts, godichi.WithMiddleware(func(s godi.Scope, r *http.Request) error {
 					rec.see(s, fmt.Sprintf("WMw %d", i))
+					rec.seeCtx(s, r.Context())
 					touch(s)
 					return mwFail(i)
 				}))
@@ -500,6 +512,7 @@ func runRequestCtx(integ int, p godi.Provider, nmw int, exit, failAt int, rec *w
 			i := i
 			opts = append(opts, godigin.WithMiddleware(func(s godi.Scope, c *gin.Context) error {
 				rec.see(s, fmt.Sprintf("WMw %d", i))
+				rec.seeCtx(s, c.Request.Context())
 				touch(s)
 				return mwFail(i)
 			}))
@@ -555,6 +568,7 @@ func runRequestCtx(integ int, p godi.Provider, nmw int, exit, failAt int, rec *w
 			i := i
 			opts = append(opts, godiecho.WithMiddleware(func(s godi.Scope, c echo.Context) error {
 				rec.see(s, fmt.Sprintf("WMw %d", i))
+				rec.seeCtx(s, c.Request().Context())
 				touch(s)
 				return mwFail(i)
 			}))
@@ -604,6 +618,7 @@ func runRequestCtx(integ int, p godi.Provider, nmw int, exit, failAt int, rec *w
 			i := i
 			opts = append(opts, godifiber.WithMiddleware(func(s godi.Scope, c *fiber.Ctx) error {
 				rec.see(s, fmt.Sprintf("WMw %d", i))
+				rec.seeCtx(s, c.UserContext())
 				touch(s)
 				return mwFail(i)
 			}))
